@@ -13,11 +13,12 @@
  *   len32 <indef> <hex> | len16 <hex> | seq32 <indef> <hex> | seq16 <hex> | set32 <indef> <hex> | set16 <hex>
  *   int <hex> | enum <hex> | oid <checkParams> <hex> | algid <hex> | taglen <hex> | oidcopy <derlen> <hex>
  *   gn <len> <hex: GeneralNames bytes .. extEnd> <hex: DER certificate containing them as SAN>
+ *   crlrev <glen> <hex: revoked entries .. end of CRL> <hex: DER CRL ending with those bytes>
  *   dn <hex>            psX509GetDNAttributes on a buffer cut at the end of the Name SEQUENCE
  *   b64 <outcap> <hex of the text>
  *   pemchk <type> <hex> | pemdec <hex> | pemlist <hex> | pempw <pw hex|NULL> <hex>
  * whole-parser ops (implementation only):  <op> <hex> [<hex password>]  ->  rc=<ok|fail> C=<0|1> L=<leaked blocks>
- *   cert certdata crl ocsp pkcs8 p12 dhparams pubkey privkey keys ; kload <rsa|ec|any> <cert> <key> [<CA>] ; pkfile <pw|NULL> <file bytes>
+ *   cert certdata crl (x3) crlcache ocsp pkcs8 p12 dhparams pubkey rsapub privkey keys ; kload <rsa|ec|any> <cert> <key> [<CA>] ; pkfile <pw|NULL> <file bytes>
  */
 #include "matrixssl/matrixsslImpl.h"
 #define WRAP_TIME
@@ -293,6 +294,25 @@ static void op_gn(void)
     free(g); free(c);
 }
 
+/* crlrev <glen> <hex: revoked-entry bytes .. end of the CRL> <hex: the CRL>: the revoked list as psX509ParseCRL stored it */
+static void op_crlrev(void)
+{
+    size_t gl, cl; unsigned char *g = exact(g_tok[2], &gl), *c = exact(g_tok[3], &cl);
+    psX509Crl_t *crl = NULL; int32 rc;
+    if (gl && (cl < gl || memcmp(c + cl - gl, g, gl) != 0)) { printf("BADCASE\n"); free(g); free(c); return; }
+    rc = psX509ParseCRL(NULL, &crl, c, (int32) cl);
+    if (rc < 0) printf("fail\n");
+    else {
+        int n = 0; x509revoked_t *r;
+        for (r = crl->revoked; r; r = r->next) n++;
+        printf("ok n=%d", n);
+        for (r = crl->revoked; r; r = r->next) { printf(" "); puthex(r->serial, r->serial ? r->serialLen : 0); }
+        printf("\n");
+        psX509FreeCRL(crl);
+    }
+    free(g); free(c);
+}
+
 static void dn_item(const char *tag, const char *s, int type, long len)
 {
     long a = tbl_get(s);
@@ -404,14 +424,31 @@ static void op_whole(void)
     }
 #ifdef USE_CRL
     else if (!strcmp(op, "crl")) {
+        /* parsed three times: on success AND on failure the heap must be back at the baseline afterwards */
+        for (int rep = 0; rep < 3; rep++) {
+            psX509Crl_t *crl = NULL;
+            rc = psX509ParseCRL(NULL, &crl, b, (int32) n);
+            if (rc >= 0 && crl) {
+                chk_len(crl->sig, crl->sigLen, "crl-sig"); walk_dn(&crl->issuer, "crl-issuer"); walk_ext(&crl->extensions);
+                if (crl->sigHashLen > MAX_HASH_SIZE) bad("crl-sigHashLen");
+                chk_str(crl->nextUpdate, "crl-nextUpdate");
+                for (x509revoked_t *r = crl->revoked; r; r = r->next) chk_len(r->serial, r->serialLen, "crl-serial");
+                psX509FreeCRL(crl);
+            }
+        }
+    }
+    else if (!strcmp(op, "crlcache")) {
+        /* CRL cache management around a parsed CRL: RemoveAll on the empty cache, Insert, RemoveAll, Update, DeleteAll */
         psX509Crl_t *crl = NULL;
+        psCRL_RemoveAll();
         rc = psX509ParseCRL(NULL, &crl, b, (int32) n);
         if (rc >= 0 && crl) {
-            chk_len(crl->sig, crl->sigLen, "crl-sig"); walk_dn(&crl->issuer, "crl-issuer"); walk_ext(&crl->extensions);
-            if (crl->sigHashLen > MAX_HASH_SIZE) bad("crl-sigHashLen");
-            for (x509revoked_t *r = crl->revoked; r; r = r->next) chk_len(r->serial, r->serialLen, "crl-serial");
+            psCRL_Insert(crl); psCRL_RemoveAll();
+            psCRL_Update(crl, 0); psCRL_Remove(crl);
+            psCRL_RemoveAll();
+            psX509FreeCRL(crl);
         }
-        if (crl) psX509FreeCRL(crl);
+        psCRL_DeleteAll();
     }
 #endif
 #ifdef USE_OCSP_RESPONSE
@@ -456,6 +493,13 @@ static void op_whole(void)
         psDhParams_t dp; memset(&dp, 0, sizeof dp);
         rc = psPkcs3ParseDhParamBin(NULL, b, (psSize_t) n, &dp);
         if (rc >= 0) psPkcs3ClearDhParams(&dp);
+    }
+#endif
+#if defined(USE_RSA) && defined(USE_PRIVATE_KEY_PARSING)
+    else if (!strcmp(op, "rsapub")) {
+        psRsaKey_t k; memset(&k, 0, sizeof k);
+        rc = psRsaParsePubKeyMem(NULL, b, n, pass, &k);
+        if (rc >= 0) psRsaClearKey(&k);
     }
 #endif
     else if (!strcmp(op, "pubkey")) {
@@ -567,6 +611,7 @@ int main(void)
         if (g_ntok < 2) printf("BADCASE\n");
         else if (!strcmp(op, "gn") && g_ntok >= 4) op_gn();
         else if (!strcmp(op, "dn")) op_dn();
+        else if (!strcmp(op, "crlrev") && g_ntok >= 4) op_crlrev();
         else if (!strcmp(op, "kload") && g_ntok >= 4) op_kload();
         else if (!strcmp(op, "pkfile") && g_ntok >= 3) op_pkfile();
         else if (!strcmp(op, "pempw") && g_ntok >= 3) op_pem();
